@@ -102,15 +102,18 @@ CHECKS = {
        'reference ninja for the Ninja backend; design-model/real disagreement is reported as spec_drift only',
   design='5/C08'),
  'C10': dict(
-  technique='TLA+ design model with a Crash action between any two file-system mutations (Regen.tla) model-checked '
-            'with TLC; fault enumeration on the real code at every mutation point recorded by an interposition shim '
+  technique='TLA+ design model with a Crash action between any two file-system mutations (Regen.tla; constants '
+            'Backend and AtomicMk model what Make / Ninja do with a truncated build file and how it is written) model-checked '
+            'with TLC, with vacuity guards for the pinned algorithm and the pinned truncating Ninja writer; recorded mutation '
+            'orders checked to be behaviours of Regen.tla (Regen_Conf.tla); fault enumeration on the real code at every mutation point recorded by an interposition shim '
             '(kill / ENOSPC), two follow-up attempts; histories validated by TLC (Regen_Trace.tla)',
   text='TLC enumerates all crash points of the design model and names the windows that end in a silent stale success; '
        'on the real code every mutation point (both sides of every open/close/remove/utime/makedirs below the build '
        'directory) of a real `regenerate --lazy` started by make / reference ninja is used once as a kill point and, '
        'where a call follows, as an ENOSPC point, over scenarios with find_files, pkg-config immediates and '
        'install/test rules; each of the two following attempts must either fail visibly or leave the build file and '
-       'declared outputs equal to a fresh configure; a raising script must leave the build file byte-identical.',
+       'declared outputs equal to a fresh configure; a raising script must leave the build file byte-identical. Both '
+       'backends are part of the quick tier.',
   note='trusted: the shim (harness/shim/sitecustomize.py, Python-level interposition: a kill is os._exit at a numbered '
        'point, buffered data is lost), fresh configure as the oracle, stub compilers, reference ninja',
   design='5/C10'),
@@ -203,12 +206,17 @@ CHECKS = {
        'reference and decides for the real function raised-iff-unsatisfiable and same accepted versions; Requires '
        'lines are evaluated by the real pkg-config against a fake dependency at each version. On the text side options, '
        'link options and include directories over the hot alphabet must come back, after sh-style splitting, as '
-       'exactly the declared flags from both the installed and the -uninstalled file.',
-  note='trusted: PkgConfLang.tla (sh-style splitting of pkg-config output), pkgconf 1.8.1 as the tool, the version '
+       'exactly the declared flags from both the installed and the -uninstalled file (incl. a prefix and a source '
+       'directory with #). Further: requires_private, the same package in the public and private list, conflicts= '
+       '(refused versions), auto_fill unset/False/True x includes and libs unset/empty/given (undeclared flags must '
+       'be absent), and a second bfg9000 project that uses the generated package through package() with the real gcc '
+       '(static with a transitive static dependency, shared, dual) and must configure, build and run.',
+  note='trusted: PkgConfLang.tla (sh-style splitting of pkg-config output), pkgconf 1.8.1 as the tool, a stand-in '
+       'for the unusable mopack (harness/stubs/mopack-stub: says the package is a pkg-config package), the version '
        'grid (integers and halves); non-ASCII bytes are not generated (pkg-config escapes them bytewise)',
   design='5/C17'),
  'C14': dict(
-  technique='TLA+ design model of library forwarding + keep-first de-duplication composed with an environment model of '
+  technique='TLA+ design model of library forwarding + de-duplication (constant KeepFirst: the repaired keep-last rule must have no failing configuration, the pinned keep-first rule is the vacuity guard) composed with an environment model of '
             'a single-pass archive linker (Link.tla), model-checked with TLC over every DAG within the bound; '
             'TLC-generated DAGs (Link_Gen.tla) built with the real bfg9000, make, gcc, ar, ld and run through the real '
             'loader, before and after moving the build directory; traces validated by TLC (Link_Trace.tla)',
@@ -217,7 +225,9 @@ CHECKS = {
        'design model predicts to fail; generated DAGs (incl. dual-use libraries under three library modes, nested '
        'different output directories, link options to be forwarded) are built with the real toolchain, the program '
        'must print the value the DAG defines, in place with an empty environment and again after the build '
-       'directory was renamed.',
+       'directory was renamed. Five directory layouts (prefix-named sibling directories, nesting, the build root), '
+       'directed all-shared chains per layout and whole_archive() cases (a shared library made of two whole archives, '
+       'every object kept) are part of both tiers.',
   note='trusted: the single-pass linker model (used for the design-level prediction and the known-finding key '
        'only; the verdict comes from the real ld), gcc/ld/loader of the sandbox, TLC',
   design='5/C14'),
